@@ -275,6 +275,16 @@ fn generate(rng: &mut Rng, n: usize, tier: &str, out: &mut dyn Write) {
         }
     }
     line(out, "un neg", &[&Value::Null]);
+    // --- `<` / `>=` on every pair of the temporal-looking strings (same-kind pairs: the Spec orders them by the
+    //     temporal parser's key, e.g. signed and 5-digit years, offsets; other pairs: text)
+    writeln!(out, "#case temporal-cmp").unwrap();
+    let tstrs: Vec<Value> = STRS.iter().filter(|s| s.len() >= 5 && s.as_bytes()[1..].iter().any(|c| *c == b'-' || *c == b':')).map(|s| Value::String(s.to_string())).collect();
+    for a in &tstrs {
+        for b in &tstrs {
+            line(out, "bin lt", &[a, b]);
+            line(out, "bin ge", &[a, b]);
+        }
+    }
     // --- `=` on composite values is the Kleene AND of the element equalities, whatever the positions:
     //     [$a,$b] = [$c,$d], {a:$a,b:$b} = {a:$c,b:$d}, nested, `<>` and IN, over {null, 1, 2, 1.0, 'a'}
     writeln!(out, "#case tuple-eq").unwrap();
